@@ -20,7 +20,42 @@ LEVEL = 'proof'
 MODULES = ['C03']
 
 
+def curved_ground_cases(rng):
+    """arcs over ideal ground whose ends touch the ground at an angle that is only numerically zero (R sin 180 degrees =
+    1.2e-16 R): half loop with both ends on the ground, quarter circles grounded at either end, with a wire from the top"""
+    out = []
+    for k in range(6):
+        f = rng.choice([7.0, 14.0, 28.0])
+        lam = antgen.C / f
+        n = rng.randint(6, 10)
+        kind = ['half', 'half', 'quarter1', 'quarter2', 'quarter1-wire', 'half'][k]
+        R = lam / rng.uniform(8, 14)
+        seg = 2 * R * math.sin(math.pi / (2 * n))
+        rad = seg / 40
+        if kind == 'half':
+            objs = [dict(kind='arc', nseg=n, radius=R, a1=0.0, a2=180.0, r=rad)]
+        elif kind == 'quarter1':
+            objs = [dict(kind='arc', nseg=n // 2 + 2, radius=R, a1=180.0, a2=90.0, r=rad)]
+        elif kind == 'quarter2':
+            objs = [dict(kind='arc', nseg=n // 2 + 2, radius=R, a1=90.0, a2=180.0, r=rad)]
+        else:
+            objs = [dict(kind='arc', nseg=n // 2 + 2, radius=R, a1=180.0, a2=90.0, r=rad),
+                    dict(kind='wire', nseg=3, p0=[0.0, 0.0, R], p1=[2.5 * seg, seg, R + seg], r=rad)]
+        out.append(dict(f=f, ground=True, objs=objs, family='arc-on-ground-' + kind, lam=lam, seg=seg))
+    return out
+
+
 def mirror_ant(ant):
+    if 'objs' in ant:
+        os_ = [dict(o) for o in ant['objs']]
+        for o in ant['objs']:
+            if o['kind'] == 'arc':
+                os_.append(dict(o, a1=-o['a1'], a2=-o['a2']))          # the arc lies in the x-z plane: z -> -z is angle -> -angle
+            elif o['kind'] == 'wire':
+                os_.append(dict(o, p0=[o['p0'][0], o['p0'][1], -o['p0'][2]], p1=[o['p1'][0], o['p1'][1], -o['p1'][2]]))
+            else:
+                raise ValueError('no mirror image for ' + o['kind'])
+        return dict(ant, ground=False, objs=os_)
     ws = [dict(w) for w in ant['wires']]
     for w in ant['wires']:
         ws.append(dict(w, p0=[w['p0'][0], w['p0'][1], -w['p0'][2]], p1=[w['p1'][0], w['p1'][1], -w['p1'][2]]))
@@ -163,6 +198,23 @@ def run(ck):
             if tie[0] > 5e-5 or tie[1] > 1e-12:
                 dis.append(dict(ant=ant, srcs=[[p, [v.real, v.imag]] for p, v in srcs],
                                 why='S^T Z_f S = W Z_g off by %.3g, right-hand side off by %.3g' % tie))
+        if bad:
+            viol.append(dict(kind='image', ant=ant, srcs=[[p, [v.real, v.imag]] for p, v in srcs], observed=bad))
+    for ant in curved_ground_cases(rng):
+        mg = antgen.build(ant)
+        srcs = gen_sources(rng, mg)
+        try:
+            bad, tie = property_on_impl(ant, srcs)
+        except Exception as e:
+            bad, tie = 'evaluation raised %s: %s' % (type(e).__name__, e), None
+        if bad is None and tie is None:
+            ck.count('skipped_cond_or_regrouped_feed')
+            continue
+        ck.case((ant['family'], len(srcs)), True)
+        ck.count('arc_on_ground_cases')
+        if tie and (tie[0] > 5e-5 or tie[1] > 1e-12):
+            dis.append(dict(ant=ant, srcs=[[p, [v.real, v.imag]] for p, v in srcs],
+                            why='S^T Z_f S = W Z_g off by %.3g, right-hand side off by %.3g' % tie))
         if bad:
             viol.append(dict(kind='image', ant=ant, srcs=[[p, [v.real, v.imag]] for p, v in srcs], observed=bad))
     ck.stats['disagreements'] = len(dis)
